@@ -2,7 +2,8 @@
    `sub` (is an object of class c a t?) is universally quantified: every theorem holds for every
    class hierarchy.  `run sub get_property (init tbl) h` is the model state after history h
    started from the class table tbl; histories are arbitrary lists of New / Write (three store
-   paths) / Read operations. *)
+   paths) / Read / Call (method with a typed parameter) / NewC (constructor with a promoted typed parameter)
+   / NewRaw (no type arguments) operations. *)
 From V.C19 Require Import Model Spec Proofs.
 
 (* "accepts values of type A, and only those, in members declared with the type parameter —
@@ -55,10 +56,32 @@ Print Assumptions same_instantiation_same_answers.
 
 (* everything observable (created / failed, accepted / rejected per store, the value read back —
    so also: a rejected store has no effect) is the reference semantics of Spec.v *)
-Theorem history_refines_spec : forall sub tbl h, wf_tbl tbl = true ->
+Theorem history_refines_spec_partial : forall sub tbl h, wf_tbl tbl = true -> null_free h = true ->
   snd (run sub get_property (init tbl) h) = spec_run sub tbl [] h.
 Proof. exact history_refines_spec_l. Qed.
-Print Assumptions history_refines_spec.
+Print Assumptions history_refines_spec_partial.
+(* without `null_free` (no null given to a method / constructor parameter) the statement is REFUTED:
+   Parameter.SetValue lets null through whatever the declared type *)
+Theorem history_null_refuted : exists sub tbl h, wf_tbl tbl = true /\
+  snd (run sub get_property (init tbl) h) <> spec_run sub tbl [] h.
+Proof. exact history_null_refuted_l. Qed.
+Print Assumptions history_null_refuted.
+
+(* "regardless of which other instantiations ..." for the parameter boundaries, INSIDE histories: after ANY
+   history (null-giving calls included) what a live instance answers to $o->m(v), v not null, is what m's
+   declaration denotes under the instance's own arguments; whether new G<args>(v) succeeds depends on G, args, v *)
+Theorem call_own_args_only_partial : forall sub tbl h i x g m d v, wf_tbl tbl = true -> v <> VNull ->
+  nth_error (insts (fst (run sub get_property (init tbl) h))) i = Some x ->
+  lookup (i_cls x) tbl = Some g -> lookup m (g_meths g) = Some d ->
+  snd (step sub get_property (fst (run sub get_property (init tbl) h)) (OCall i m v))
+  = if match member_type g (i_args x) d with None => true | Some t => of_type sub v t end then Accepted else Rejected.
+Proof. exact call_own_args_only_l. Qed.
+Print Assumptions call_own_args_only_partial.
+Theorem ctor_own_args_only_partial : forall sub tbl h c args v objs, wf_tbl tbl = true -> v <> VNull ->
+  snd (step sub get_property (fst (run sub get_property (init tbl) h)) (ONewC c args v))
+  = snd (spec_step sub tbl objs (ONewC c args v)).
+Proof. exact ctor_own_args_only_l. Qed.
+Print Assumptions ctor_own_args_only_partial.
 
 (* the two other kinds of member that can be declared with the type parameter: a method parameter
    `T $x` (after fixes dcfa9d9, 895602f) and a constructor-promoted `public T $v` (after fix
